@@ -28,9 +28,11 @@ var (
 	zzSubCalls    int
 	zzSubFailAt   int // index (1-based) of the SubscribeNewHead call that fails, 0 = none
 	zzFetchCalls  int
-	zzFetchFailAt int // index (1-based) of the FilterLogs call that fails, 0 = none
+	zzFetchFailAt int                 // index (1-based) of the FilterLogs call that fails, 0 = none
 	zzNLogs       [zzMaxBlock + 1]int // -1 = not yet chosen
-	zzRemoved     [zzMaxBlock + 1]bool
+	zzRemovedAt   [zzMaxBlock + 1][3]bool
+	zzRich        bool
+	zzHead        uint64
 	zzReconnects  int
 	zzFrom        uint64
 )
@@ -50,12 +52,22 @@ func zzBlockLogs(b uint64) []ethtypes.Log {
 		return nil
 	}
 	if zzNLogs[b] < 0 {
-		// every block may or may not emit registry logs; one block (start+1) may emit two, the first of them "removed"
-		if zzNondetBool("hasLogs") {
+		if zzRich {
+			// historical harness: 0..1 logs per block, 0..3 in block start+1, every log with its own "removed" flag
+			max := 1
+			if b == zzFrom+1 {
+				max = 3
+			}
+			zzNLogs[b] = zzChoose("nlogs", max+1)
+			for i := 0; i < zzNLogs[b]; i++ {
+				zzRemovedAt[b][i] = zzNondetBool("removed")
+			}
+		} else if zzNondetBool("hasLogs") {
+			// every block may or may not emit registry logs; one block (start+1) may emit two, the first of them "removed"
 			zzNLogs[b] = 1
 			if b == zzFrom+1 && zzNondetBool("twoLogsFirstRemoved") {
 				zzNLogs[b] = 2
-				zzRemoved[b] = true
+				zzRemovedAt[b][0] = true
 			}
 		} else {
 			zzNLogs[b] = 0
@@ -63,10 +75,12 @@ func zzBlockLogs(b uint64) []ethtypes.Log {
 	}
 	var out []ethtypes.Log
 	for i := 0; i < zzNLogs[b]; i++ {
-		out = append(out, ethtypes.Log{BlockNumber: b, Index: uint(i), Removed: i == 0 && zzRemoved[b]})
+		out = append(out, ethtypes.Log{BlockNumber: b, Index: uint(i), Removed: zzRemovedAt[b][i]})
 	}
 	return out
 }
+
+func zzBlockNumber(c *ethclient.Client, ctx context.Context) (uint64, error) { return zzHead, nil }
 
 func zzFilterLogs(c *ethclient.Client, ctx context.Context, q ethereum.FilterQuery) ([]ethtypes.Log, error) {
 	zzFetchCalls++
@@ -81,7 +95,11 @@ func zzFilterLogs(c *ethclient.Client, ctx context.Context, q ethereum.FilterQue
 	return out, nil
 }
 
-func zzReconnect(ec *ExecutionClient, ctx context.Context) { zzReconnects++; zzHeads = nil; zzCurSub = nil }
+func zzReconnect(ec *ExecutionClient, ctx context.Context) {
+	zzReconnects++
+	zzHeads = nil
+	zzCurSub = nil
+}
 
 type zzEntry struct {
 	block uint64
@@ -170,7 +188,11 @@ func ZZHarnessStream() {
 		}
 	}
 	zzReach("end")
-	// ---- oracle
+	zzOracle(got, from, head, follow)
+}
+
+// zzOracle: the delivered sequence against the chain of this path (property C13).
+func zzOracle(got []zzEntry, from, head, follow uint64) {
 	for i := 1; i < len(got); i++ {
 		zzAssert(got[i].block > got[i-1].block, "block-numbers-strictly-increasing")
 	}
@@ -195,12 +217,10 @@ func ZZHarnessStream() {
 			for _, e := range got {
 				if e.block == b {
 					n++
-					if len(want) > 0 {
-						zzAssert(len(e.logs) == len(want), "entry-carries-all-non-removed-logs")
-						for i := range e.logs {
-							if i < len(want) {
-								zzAssert(e.logs[i].Index == want[i].Index && e.logs[i].BlockNumber == b, "entry-logs-in-order")
-							}
+					zzAssert(len(e.logs) == len(want), "entry-carries-exactly-the-non-removed-logs")
+					for i := range e.logs {
+						if i < len(want) {
+							zzAssert(e.logs[i].Index == want[i].Index && e.logs[i].BlockNumber == b, "entry-logs-in-order")
 						}
 					}
 				}
@@ -213,4 +233,43 @@ func ZZHarnessStream() {
 			}
 		}
 	}
+	// no log marked "removed" is ever handed over
+	for _, e := range got {
+		for _, l := range e.logs {
+			zzAssert(!l.Removed, "no-removed-log-is-delivered")
+		}
+	}
+}
+
+// ZZHarnessHistorical: the public FetchHistoricalLogs over a three-block range with a rich distribution of logs
+// (0..1 per block, 0..3 in the middle block, every log with its own symbolic "removed" flag - so runs of adjacent
+// removed logs inside a block and across block boundaries occur), batch size BATCH, follow distance FOLLOW, no faults.
+func ZZHarnessHistorical() {
+	for i := range zzNLogs {
+		zzNLogs[i] = -1
+	}
+	zzRich = true
+	follow := zzParam("FOLLOW")
+	batch := zzParam("BATCH")
+	ec := &ExecutionClient{logger: zap.NewNop(), metrics: nopMetrics{}, followDistance: follow, logBatchSize: batch,
+		closed: make(chan struct{}), client: new(ethclient.Client)}
+	from := zzConcretizeU64(zzNondetRange("from", 1, 2))
+	zzFrom = from
+	head := zzConcretizeU64(from + follow + zzNondetRange("span", 0, 2))
+	zzHead = head
+	logs, errs, err := ec.FetchHistoricalLogs(context.Background(), from)
+	zzAssert(err == nil, "historical-fetch-starts")
+	if err != nil {
+		return
+	}
+	var got []zzEntry
+	for b := range logs {
+		got = append(got, zzEntry{b.BlockNumber, b.Logs})
+	}
+	for e := range errs {
+		zzAssert(e == nil, "historical-fetch-reports-no-error-without-faults")
+	}
+	zzReach("end")
+	zzOracle(got, from, head, follow)
+	// without faults every block with non-removed logs is there (checked by the oracle) and the range is complete
 }
